@@ -57,6 +57,11 @@ def parseOp (s : String) : Option Op :=
   | ["translate", i, t] => do
       let tgt ← if t.startsWith "V" then (t.drop 1).toString.toNat? else none
       some (.translate (← i.toNat?) tgt)
+  | ["un", u, i] => do
+      let uo ← match u with
+        | "neg" => some UnOp.neg | "inv" => some .inv | "linv" => some .linv | "rinv" => some .rinv
+        | "normalized" => some .normalized | "unitary" => some .unitary | _ => none
+      some (.unary uo (← i.toNat?))
   | [k, i, j] => do some (.bin (← parseBinOp k) (← i.toNat?) (← j.toNat?))
   | _ => none
 
